@@ -23,12 +23,16 @@ structure TimeOk (k : Kind) (now : Nat) (pc : Pc) (cur : Call) (got : Option Nat
   c3 : (pc = .psAcq ∨ pc = .psSpin ∨ pc = .psCs ∨ pc = .psRel ∨ pc = .fpLock ∨ pc = .fpCs ∨ pc = .fpSig ∨ pc = .fpUnl) →
         ∃ u, cur = .push u
   c4 : (pc = .fnCheck ∨ pc = .fnLock ∨ pc = .fnCs ∨ pc = .fnUnl) → ∃ tl, cur = .pop tl
+  g1 : ∀ u, got = some u → (pc = .aRel ∨ pc = .fnUnl ∨ pc = .fwUnl ∨ pc = .retp)
+  s1 : (pc = .aTry ∨ pc = .aSpinE ∨ pc = .aSpinL ∨ pc = .aCs ∨ pc = .aRel) → saw = true
+  s2 : ∀ u, k = .poll → got = some u → saw = true
   e0 : (∀ u, cur ≠ .push u) → pc = .retp → got = none → ep = true
   e1 : (pc = .aRel ∨ pc = .fnUnl ∨ pc = .fwUnl) → got = none → ep = true
   e2 : (pc = .wTime ∨ pc = .tSleep ∨ pc = .tTime) → ep = true
   w1 : ∀ t tl, k = .poll → cur = .popWait t tl → (LoopA pc ∨ pc = .wTime ∨ pc = .wSleep) → start = none → reads = 0
   w2 : ∀ t tl s0, k = .poll → cur = .popWait t tl → (LoopA pc ∨ pc = .wTime ∨ pc = .wSleep) → start = some s0 →
         1 ≤ reads ∧ 100 * reads ≤ t + 100 ∧ (pc ≠ .wSleep → s0 + 100 * reads ≤ now) ∧ (pc = .wSleep → s0 + 100 * reads ≤ wake)
+  w3 : ∀ t tl, k = .poll → cur = .popWait t tl → (LoopA pc ∨ pc = .wTime ∨ pc = .wSleep) → 100 * reads ≤ t + 100
   w4 : ∀ t tl, k = .poll → cur = .popWait t tl → pc = .retp → got = none → ∃ s0, start = some s0 ∧ s0 + t < lastRead
   w5 : ∀ t tl, k = .poll → cur = .popWait t tl → pc = .retp → 100 * reads ≤ t + 200
   w6 : ∀ t tl, k = .poll → cur = .popWait t tl → saw = false → pc ≠ .idle →
@@ -51,7 +55,7 @@ def InvC (k : Kind) (s : St) : Prop :=
 theorem timeOk_mono {k : Kind} {now now' : Nat} {pc cur got start wake reads steps saw ep lastRead base}
     (h : TimeOk k now pc cur got start wake reads steps saw ep lastRead base) (hle : now ≤ now') :
     TimeOk k now' pc cur got start wake reads steps saw ep lastRead base := by
-  refine ⟨h.c1, h.c2, h.c3, h.c4, h.e0, h.e1, h.e2, h.w1, ?_, h.w4, h.w5, h.w6, ?_, h.t2, h.t3, h.f1, h.f2, h.f3, h.f4⟩
+  refine ⟨h.c1, h.c2, h.c3, h.c4, h.g1, h.s1, h.s2, h.e0, h.e1, h.e2, h.w1, ?_, h.w3, h.w4, h.w5, h.w6, ?_, h.t2, h.t3, h.f1, h.f2, h.f3, h.f4⟩
   · intro t tl s0 a b c d
     obtain ⟨x1, x2, x3, x4⟩ := h.w2 t tl s0 a b c d
     exact ⟨x1, x2, fun e => Nat.le_trans (x3 e) hle, x4⟩
@@ -71,13 +75,17 @@ macro "tk" h:ident p:ident f:ident : tactic => `(tactic|
    · have := ($h).c2; grind
    · have := ($h).c3; grind
    · have := ($h).c4; grind
+   · have := ($h).g1; grind
+   · have := ($h).s1; grind
+   · have := $p; have := ($h).g1; have := ($h).s1; have := ($h).s2; grind [FwPc]
    · have := ($h).c3; have := ($h).e0; have := ($h).e1; have := ($h).e2; grind
    · have := ($h).e1; grind
    · have := ($h).e1; have := ($h).e2; grind
    · have := $p; have := ($h).c2; have := ($h).w1; grind [LoopA, FwPc]
    · have := $p; have := ($h).c2; have := ($h).w1; have := ($h).w2; grind [LoopA, FwPc]
+   · have := $p; have := ($h).c2; have := ($h).w1; have := ($h).w2; have := ($h).w3; grind [LoopA, FwPc]
    · have := $p; have := ($h).c3; have := ($h).w2; have := ($h).w4; grind [LoopA, FwPc]
-   · have := $p; have := ($h).c3; have := ($h).w1; have := ($h).w2; have := ($h).w5; grind [LoopA, FwPc]
+   · have := $p; have := ($h).c3; have := ($h).w3; have := ($h).w5; grind [LoopA, FwPc]
    · have := $p; have := ($h).c2; have := ($h).c3; have := ($h).w6; grind [LoopA, FwPc]
    · have := $p; have := ($h).c1; have := ($h).t1; grind [LoopA, FwPc]
    · have := $p; have := ($h).c1; have := ($h).c3; have := ($h).t1; have := ($h).t2; grind [LoopA, FwPc]
